@@ -23,9 +23,10 @@ def case(s, v):
     return s
 
 
-def escape_name(n, v):
-    """escape one ordinary (non-hex-digit-sensitive) character of a name"""
-    if v["esc"] == "none" or not n:
+def escape_name(n, v, hexonly=False):
+    """escape one ordinary (non-hex-digit-sensitive) character of a name; hexonly: positions where cssutils keeps a simple
+    escape as written (selectors, values) - same denotation, but not the string the projection compares"""
+    if v["esc"] == "none" or not n or (hexonly and v["esc"] == "simple"):
         return n
     for i, c in enumerate(n):
         if c.isalpha():
@@ -68,6 +69,10 @@ def comp_text(c, v):
         return num_text(x, v)
     if t == "COLOR_VALUE" and x.startswith("#") and v.get("hash") == "long" and len(x) == 4:
         return "#" + "".join(c * 2 for c in x[1:])
+    if t == "COLOR_VALUE" and x.startswith("#") and v["esc"] in ("hex", "hex6"):
+        return "#" + escape_name(x[1:], v, hexonly=True)           # a hex escape inside the hash token: same colour
+    if t in ("IDENT", "COLOR_VALUE") and re.match(r"^[a-z]+$", x):
+        return escape_name(x, v, hexonly=True)
     if t == "STRING":
         return v["quote"] + x[1:-1] + v["quote"]
     if t == "URI":
@@ -117,6 +122,8 @@ def body_text(body, v):
 
 
 def sel_text(s, v):
+    # an escape inside id and class names (the name is what the escape decodes to)
+    s = re.sub(r"(?<![a-z0-9])([#.])([a-z]+)", lambda m: m.group(1) + escape_name(m.group(2), v, hexonly=True), s)
     s = re.sub(r"(:{1,2})([a-z-]+)", lambda m: m.group(1) + case(m.group(2), v), s)
     s = re.sub(r" ([>+~]) ", lambda m: W(v) + m.group(1) + W(v), s)
     if v["ws"] and v["ws"] != " ":
